@@ -605,3 +605,121 @@ _run_s11 = run
 def run(ctx, rep, tier):
     _run_s11(ctx, rep, tier)
     _append_is_sequenced(ctx, rep, tier)
+
+
+# ---------------------------------------------------------------------------------------------------------------- C11.w
+_HOLE = re.compile(r"\[\[(?!\[).*?\]\]")
+
+
+def _c_skeleton(text):
+    """An emitted line with interpolations, string / character constants and comments replaced by atoms: what is left is the C punctuation the template
+    itself contributes."""
+    t = _HOLE.sub("H", text)
+    t = re.sub(r'"(\\.|[^"\\])*"', "S", t)
+    t = re.sub(r"'(\\.|[^'\\])*'", "C", t)
+    t = re.sub(r"/\*.*?\*/", "", t)
+    t = re.sub(r"//.*$", "", t)
+    return t.strip()
+
+
+def _wf_items(items, probs, in_loop=None):
+    """Walk one emission unit: returns (net brace depth, first skeleton line, last skeleton line)."""
+    depth, prev, first = 0, None, None
+    for it in items:
+        if isinstance(it, CallBlock):
+            prev = "@@UNIT"          # a nested unit: balanced on its own (checked as its own unit)
+            first = first or prev
+            continue
+        if isinstance(it, LoopBlock):
+            heads, tails = [], []
+            for body in it.bodies:
+                sub = []
+                d, h, t = _wf_items(body[1], sub, in_loop=it)
+                probs.extend(sub)
+                if d != 0:
+                    probs.append(f"a body of the loop over {it.iter_src} leaves {d:+d} block(s) open per round")
+                heads.append(h)
+                tails.append(t)
+            # an `else` that opens a round continues the chain the previous round left: some round must open the chain with `if`, every round must end on `}`
+            if any(h is not None and re.match(r"^else\b", h) for h in heads):
+                if not any(h is not None and re.match(r"^if\b", h) for h in heads):
+                    probs.append(f"loop over {it.iter_src}: rounds start with `else` but no round opens the chain with `if`")
+                if not all(t is None or t.endswith("}") or t == "@@UNIT" for t in tails):
+                    probs.append(f"loop over {it.iter_src}: a round that is continued by `else` does not end on `}}`")
+            prev = "@@UNIT"
+            first = first or prev
+            continue
+        for sub in it.text().split("\n"):
+            t = _c_skeleton(sub)
+            if not t:
+                continue
+            first = first or t
+            if t.startswith("#"):
+                continue
+            if t.count("(") != t.count(")"):
+                probs.append(f"unbalanced parentheses in {sub.strip()!r}")
+            if t.count("[") != t.count("]"):
+                probs.append(f"unbalanced brackets in {sub.strip()!r}")
+            for ch in t:
+                if ch == "{":
+                    depth += 1
+                elif ch == "}":
+                    depth -= 1
+                    if depth < 0:
+                        probs.append(f"{sub.strip()!r} closes a block this unit did not open")
+                        depth = 0
+            if re.match(r"^else\b", t):
+                if prev is None and in_loop is not None:
+                    pass        # decided for the loop as a whole (above)
+                elif not (prev is not None and (prev.endswith("}") or prev == "@@UNIT")):
+                    probs.append(f"{sub.strip()!r} does not follow a closed block (previous line: {prev!r})")
+            if t[-1] not in ";{}:,":
+                probs.append(f"{sub.strip()!r} is not a complete statement, block opener, label or list element")
+            prev = t
+    return depth, first, prev
+
+
+def _emitted_units_are_wellformed(ctx, rep, tier):
+    """C11.w: on every emission path of every generator function, what the template itself contributes is block-structured C: braces opened by a unit are
+    closed by it (never more closed than opened), parentheses and brackets balance within a line, an `else` follows a closed block, every line is a complete
+    statement / opener / label. A brace dropped in one arm of one template (a storage mode x option combination no test compiles) is invalid C for exactly
+    the programs that reach that arm."""
+    model, E = ctx.model, ctx.emit
+    rep.rule("C11.w", "every emission path of every generator function is block-structured C on its own: braces balance per unit and per loop round, parentheses / "
+                      "brackets per line, `else` follows a closed block, every line is a complete statement, opener, label or list element")
+    gens = [q for q, f in model.functions.items() if q.startswith("CodegenCtx.") and q.count(".") == 1 and
+            any(isinstance(n, ast.Call) and isinstance(n.func, ast.Attribute) and n.func.attr == "add" for n in ast.walk(f))]
+    n_paths = 0
+    for q in sorted(gens):
+        variants = [dict(classes={"action": cl}) for cl in model.concrete_subclasses("Action") if cl != "Action"] if q.endswith("._generate_action_implementation") else [{}]
+        for kw in variants:
+            fp = E.enumerate(q, **kw)
+            bad = {}
+            for p in fp.paths:
+                if p.end and p.end[0] == "raise":
+                    continue
+                n_paths += 1
+                probs = []
+                d, _, _ = _wf_items(fp.lines(p), probs)
+                if d != 0:
+                    probs.append(f"the unit leaves {d:+d} block(s) open")
+                for pr in set(probs):
+                    bad.setdefault(pr, p)
+            tag = q + (f"[{kw['classes']['action']}]" if kw else "")
+            for pr, p in sorted(bad.items()):
+                rep.bad("C11.w", q, f"{tag}: {pr}"[:220], f"{pr} (first on the path with {', '.join(f'{k}={v}' for k, v in sorted(p.valuation().items()) if isinstance(v, bool))[:300]})",
+                        extra={"lines": [i.text() for i in fp.lines(p)][:60]})
+            if not bad:
+                rep.ok("C11.w", q, f"{tag}: {len(fp.paths)} emission path(s)")
+    rep.count("wellformed:emission_paths", n_paths)
+    if n_paths < 600:
+        raise AnalysisError(f"C11.w: only {n_paths} emission paths enumerated (floor 600)")
+    rep.floor("C11.w", 20)
+
+
+_run_w11 = run
+
+
+def run(ctx, rep, tier):
+    _run_w11(ctx, rep, tier)
+    _emitted_units_are_wellformed(ctx, rep, tier)
